@@ -35,7 +35,7 @@ def shapes_for(op, version, rng, reasons, quick):
     out.append(('success', True, [Item(RS.SUCCESS, payload=op.payload(rng, version))]))
     if op.name == 'get':
         # wrapped keys: Key Wrapping Data with every optional sub-structure present / absent, pairwise different values
-        for shape in ('both', 'enc-only', 'mac-only', 'both-no-params', 'enc-params-only', 'mac-params-only'):
+        for shape in ('both', 'enc-only', 'mac-only', 'both-no-params', 'enc-params-only', 'mac-params-only', 'split'):
             out.append(('success-wrapped-' + shape, True, [Item(RS.SUCCESS, payload=D.p_get(rng, version, shape))]))
     for r in reasons:
         out.append(('failure', True, [Item(RS.OPERATION_FAILED, r, D.gen_text(rng, 0, 40))]))
@@ -204,7 +204,11 @@ def pie_cases(ctx, quick):
                 for _ in range(3 if quick else 12):
                     reasons.append(all_reasons[ri % len(all_reasons)])
                     ri += 1
-                kwargs = op.args(rng, version)
+                for attempt in range(8):      # arguments the method accepts under this version (it emits a request)
+                    kwargs = op.args(rng, version)
+                    _, _, probe = scripted_call(op, version, kwargs, items=[Item(RS.OPERATION_FAILED, RR.GENERAL_FAILURE, 'probe')])
+                    if probe.sent:
+                        break
                 shapes = shapes_for(op, version, rng, reasons, quick)
                 for label, legal, items in shapes:
                     out, resp, sock = scripted_call(op, version, kwargs, items=items)
